@@ -3,6 +3,9 @@
    fill, stamped writes with or without changes, faults on the change directory), all element types and
    all retention settings: invariant [Inv] + relation [R] (DESIGN.md B.1: R1-R4, R7) are preserved by every
    step, results are equal, write() never fails, and no read goes behind the valid region length.
+   The invariant does NOT require stored_len <= on-disk length: a stored slot behind the region's end must be in
+   the `updated` overlay or deleted (Cov) — the state a rollback of a truncating commit leaves (C04, Vec/RvChain.v);
+   since the repair of write() (the region is extended to stored_len first) write() is total on it as well.
    PROOF file. *)
 From Anydb Require Import Common.Base Common.LE Vec.RegionSpec Vec.RvBase Vec.RvChange Vec.RvModel
   Vec.RvRollback Vec.RvSpec Vec.RvRollbackProofs.
@@ -189,6 +192,27 @@ Proof.
       rewrite Hn, Hg1, N.eqb_refl. reflexivity.
     + destruct (nm_get j t); auto. rewrite Hg1, Ej. reflexivity.
 Qed.
+(* the `expanded` loop (region.write_at per entry): in bounds once the region backs every stored slot *)
+Lemma write_at_each_ok (upd : nmap T) : forall (r : vreg T),
+  NoDup (nm_keys upd) -> (forall i, nm_get i upd <> None -> i < vr_len r) ->
+  exists r', write_at_each r upd = (r', true) /\ vr_len r' = vr_len r /\
+             forall j, get (vr_disk r') j = match nm_get j upd with Some v => Some v | None => get (vr_disk r) j end.
+Proof.
+  induction upd as [|[i v] t IH]; intros r Hd Hk; cbn [write_at_each].
+  - exists r. repeat split.
+  - assert (Hi : i < vr_len r) by (apply Hk; cbn [nm_get]; rewrite N.eqb_refl; discriminate).
+    destruct (vr_write_at_one r i v Hi) as (r1 & -> & Hl1 & Hg1).
+    cbn [nm_keys map fst] in Hd. inversion Hd as [|? ? Hni Hd']; subst.
+    destruct (IH r1 Hd') as (r' & -> & Hl & Hg).
+    { intros j Hj. rewrite Hl1. apply Hk. cbn [nm_get]. destruct (j =? i); [discriminate|exact Hj]. }
+    exists r'. split; [reflexivity|]. split; [lia|]. intros j. rewrite Hg. cbn [nm_get].
+    destruct (j =? i) eqn:Ej.
+    + apply N.eqb_eq in Ej. subst.
+      assert (Hn : nm_get i t = None).
+      { destruct (nm_get i t) eqn:Eg; auto. exfalso. apply Hni. apply nm_get_keys. congruence. }
+      rewrite Hn, Hg1, N.eqb_refl. reflexivity.
+    + destruct (nm_get j t); auto. rewrite Hg1, Ej. reflexivity.
+Qed.
 End VR.
 
 (* ---- the view, the invariant, the relation ------------------------------------------------------------------ *)
@@ -235,8 +259,12 @@ Qed.
 Lemma rlen_core (s s' : rv) : core s = core s' -> rlen s = rlen s'.
 Proof. unfold core, rlen. intros [= _ Hs Hp _ _ _ _ _ _ _]. now rewrite Hs, Hp. Qed.
 
+(* every stored slot is backed by the region, or — after a rollback made the vector longer than the region
+   (`expanded`) — by the `updated` overlay, or it is a deleted slot *)
+Definition Cov (s : rv) : Prop :=
+  forall i, real_stored_len s <= i -> i < stored_len s -> nm_get i (updated s) <> None \/ ns_mem i (holes s) = true.
 Definition Inv (s : rv) : Prop :=
-  stored_len s <= real_stored_len s /\
+  Cov s /\
   (forall i, nm_get i (updated s) <> None -> i < stored_len s) /\
   NoDup (nm_keys (updated s)) /\
   (forall i, ns_mem i (holes s) = true -> i < rlen s) /\
@@ -245,7 +273,7 @@ Definition Inv (s : rv) : Prop :=
 
 Lemma Inv_core (s s' : rv) : core s = core s' -> Inv s -> Inv s'.
 Proof.
-  unfold core, Inv, rlen, real_stored_len. intros [= Hr Hs Hp Hh Hu H1 H2 H3 H4 H5].
+  unfold core, Inv, Cov, rlen, real_stored_len. intros [= Hr Hs Hp Hh Hu H1 H2 H3 H4 H5].
   now rewrite Hr, Hs, Hp, Hh, Hu, H1, H2, H3, H4, H5.
 Qed.
 
@@ -272,14 +300,17 @@ Qed.
 Lemma Inv_no_stale (s : rv) i : Inv s -> i < rlen s -> snd (get_any_or_read_at tsize dec s i) = 0.
 Proof.
   intros (I1 & _) Hi. unfold get_any_or_read_at.
-  destruct (negb _ && ns_mem i (holes s)); [reflexivity|].
-  destruct (stored_len s <=? i) eqn:E; [reflexivity|]. destruct (nm_get i (updated s)); [reflexivity|].
-  cbn [snd]. unfold is_stale. destruct (i <? real_stored_len s) eqn:E2; [reflexivity|lia].
+  destruct (negb _ && ns_mem i (holes s)) eqn:Eh; [reflexivity|].
+  destruct (stored_len s <=? i) eqn:E; [reflexivity|]. destruct (nm_get i (updated s)) eqn:Eu; [reflexivity|].
+  cbn [snd]. unfold is_stale. destruct (i <? real_stored_len s) eqn:E2; [reflexivity|]. exfalso.
+  destruct (I1 i ltac:(lia) ltac:(lia)) as [H|H]; [congruence|]. rewrite H in Eh.
+  destruct (holes s); [cbn in H; discriminate H|discriminate Eh].
 Qed.
 
 Lemma Inv_init k0 : Inv (rv_init k0).
 Proof.
-  unfold Inv, rv_init, real_stored_len, vr_len, rlen. cbn.
+  unfold Inv, Cov, rv_init, real_stored_len, vr_len, rlen. cbn.
+  split; [intros i H1 H2; lia|].
   repeat split; intros; try lia; try congruence; try discriminate; try constructor.
 Qed.
 Lemma R_init k0 : R (rv_init k0) (sv_init k0).
@@ -292,6 +323,7 @@ Context {T : Type} (tsize : N) (enc : T -> list N) (dec : list N -> T).
 Notation rv := (@rv T).
 Notation view_at := (view_at tsize dec).
 Notation Inv := (@Inv T).
+Notation rv_write := (rv_write tsize dec).
 
 Definition hdrf (s : rv) := (stamp s, hdr_modified s, hdr_disk s).
 Definition holef (s : rv) := (has_stored_holes s, holes_region s).
@@ -328,18 +360,50 @@ Proof.
     + rewrite get_app_r by (rewrite len_take; lia). rewrite len_take. f_equal. lia.
 Qed.
 
-Lemma write_updates_ok (s1 : rv) :
+Lemma write_updates_ok (b : bool) (s1 : rv) :
   NoDup (nm_keys (updated s1)) -> (forall i, nm_get i (updated s1) <> None -> i < real_stored_len s1) ->
-  exists s2, write_updates false s1 = (s2, Ok tt) /\ updated s2 = [] /\ real_stored_len s2 = real_stored_len s1 /\
+  exists s2, write_updates b s1 = (s2, Ok tt) /\ updated s2 = [] /\ real_stored_len s2 = real_stored_len s1 /\
     (forall j, get (disk s2) j = match nm_get j (updated s1) with Some v => Some v | None => get (disk s1) j end) /\
     stored_len s2 = stored_len s1 /\ pushed s2 = pushed s1 /\ holes s2 = holes s1 /\
     holef s2 = holef s1 /\ hdrf s2 = hdrf s1 /\ prevf s2 = prevf s1.
 Proof.
   intros Hd Hk. unfold write_updates. destruct (updated s1) as [|p t] eqn:Eu.
   - exists s1. rewrite Eu. repeat split; auto.
-  - destruct (batch_write_each_ok (p :: t) (reg (set_updated [] s1)) Hd) as (r' & Hb & Hl & Hg).
-    { intros i Hi. cbn. apply Hk. exact Hi. }
-    rewrite Hb. eexists. split; [reflexivity|]. cbn. unfold real_stored_len. cbn. repeat split; auto.
+  - destruct b.
+    + destruct (write_at_each_ok (p :: t) (reg (set_updated [] s1)) Hd) as (r' & Hb & Hl & Hg).
+      { intros i Hi. cbn. apply Hk. exact Hi. }
+      rewrite Hb. eexists. split; [reflexivity|]. cbn. unfold real_stored_len. cbn. repeat split; auto.
+    + destruct (batch_write_each_ok (p :: t) (reg (set_updated [] s1)) Hd) as (r' & Hb & Hl & Hg).
+      { intros i Hi. cbn. apply Hk. exact Hi. }
+      rewrite Hb. eexists. split; [reflexivity|]. cbn. unfold real_stored_len. cbn. repeat split; auto.
+Qed.
+
+(* the extension step of the repaired write(): never fails; afterwards the region backs every stored slot *)
+Lemma write_extend_ok (s : rv) :
+  exists se, write_extend tsize dec s = (se, None) /\ stored_len se <= real_stored_len se /\
+    (forall i, i < real_stored_len s -> get (disk se) i = get (disk s) i) /\
+    (forall i, real_stored_len s <= i -> i < stored_len s ->
+       get (disk se) i = Some (match nm_get i (updated s) with Some v => v | None => zero_val tsize dec end)) /\
+    stored_len se = stored_len s /\ pushed se = pushed s /\ holes se = holes s /\ updated se = updated s /\
+    holef se = holef s /\ hdrf se = hdrf s /\ prevf se = prevf s.
+Proof.
+  unfold write_extend. destruct (real_stored_len s <? stored_len s) eqn:Ex.
+  - unfold real_stored_len in *.
+    destruct (vr_truncate_write_ok (reg s) (vr_len (reg s)) (extend_vals tsize dec s) (N.le_refl _)) as (r' & -> & Hd).
+    assert (Hl : len (extend_vals tsize dec s) = stored_len s - vr_len (reg s)).
+    { unfold extend_vals, len. rewrite map_length, seqN_length. unfold real_stored_len. lia. }
+    assert (Ht : take (vr_len (reg s)) (vr_disk (reg s)) = vr_disk (reg s)).
+    { unfold take, vr_len, len. rewrite Nat2N.id. apply firstn_all. }
+    rewrite Ht in Hd.
+    eexists. split; [reflexivity|]. cbn [stored_len pushed holes updated reg set_reg]. unfold disk. cbn [reg set_reg].
+    split; [unfold vr_len in *; rewrite Hd, len_app, Hl; lia|].
+    split; [intros i Hi; rewrite Hd; apply get_app_l; exact Hi|].
+    split; [|repeat split].
+    intros i H1 H2. rewrite Hd, get_app_r by exact H1. unfold extend_vals. rewrite get_map_seqN.
+    unfold real_stored_len, vr_len in *.
+    destruct (i - len (vr_disk (reg s)) <? N.of_nat (N.to_nat (stored_len s - len (vr_disk (reg s))))) eqn:E; [|lia].
+    replace (len (vr_disk (reg s)) + (i - len (vr_disk (reg s)))) with i by lia. reflexivity.
+  - exists s. split; [reflexivity|]. split; [lia|]. split; [reflexivity|]. split; [intros i H1 H2; lia|]. repeat split.
 Qed.
 
 Lemma write_holes_ok (s2 : rv) :
@@ -371,22 +435,26 @@ Proof.
   unfold write_header_if_needed. destruct (hdr_modified s) eqn:E; cbn; repeat split; auto.
 Qed.
 
+(* slots whose underlying value write() keeps: all but a DELETED slot that is neither on disk nor in `updated`
+   (write() stores zero bytes there; nothing can read them: the slot is deleted) *)
+Definition backed (s : rv) (i : N) : Prop := i < real_stored_len s \/ stored_len s <= i \/ nm_get i (updated s) <> None.
+
 Theorem write_ok_u (s : rv) : Inv s ->
   exists b s', rv_write s = (s', Ok b) /\ Inv s' /\ Normal s' /\ rlen s' = rlen s /\ holes s' = holes s /\
                stamp s' = stamp s /\ prevf s' = prevf s /\
-               (forall i, i < rlen s -> uopt tsize dec s' i = uopt tsize dec s i).
+               (forall i, i < rlen s -> backed s i -> uopt tsize dec s' i = uopt tsize dec s i).
 Proof.
   intros (I1 & I2 & I3 & I4 & I5 & I6).
   destruct (whin_fields s) as (F1 & F2 & F3 & F4 & F5 & F6 & F7 & F8 & F9). specialize (F9 I6) as [G1 G2].
   set (s0 := write_header_if_needed s) in *.
   assert (F6' := F6). unfold holef in F6'. injection F6' as F6a F6b.
-  assert (J1 : stored_len s0 <= real_stored_len s0) by (unfold real_stored_len in *; rewrite F1, F2; exact I1).
   assert (V0 : forall i, view_at s0 i = view_at s i).
   { intros i. rewrite !view_at_eq. unfold RvModel.phys_read. now rewrite F1, F2, F3, F4, F5. }
   assert (L0 : rlen s0 = rlen s) by (unfold rlen; now rewrite F2, F3).
   assert (Inv0 : Inv s0).
-  { unfold RvRefine.Inv, rlen, real_stored_len in *. rewrite F1, F2, F3, F4, F5, F6a, F6b. repeat split; auto; try apply I5. }
-  unfold rv_write. fold s0. cbv zeta.
+  { unfold RvRefine.Inv, Cov, rlen, real_stored_len in *. rewrite F1, F2, F3, F4, F5, F6a, F6b. repeat split; auto; try apply I5. }
+  assert (B0 : forall i, backed s0 i <-> backed s i) by (intros i; unfold backed, real_stored_len; rewrite F1, F2, F5; reflexivity).
+  unfold RvModel.rv_write. fold s0. cbv zeta.
   destruct (negb (stored_len s0 <? real_stored_len s0) && negb (real_stored_len s0 <? stored_len s0) &&
             negb (negb (len (pushed s0) =? 0)) && negb match updated s0 with [] => false | _ :: _ => true end &&
             negb match holes s0 with [] => false | _ :: _ => true end && negb (has_stored_holes s0)) eqn:Ec.
@@ -400,14 +468,16 @@ Proof.
     + unfold Normal. rewrite Hp, Hu, Hh. repeat split; auto; try lia.
       destruct (holes_region s0) eqn:Er; auto. exfalso.
       destruct Inv0 as (_ & _ & _ & _ & K5 & _). assert (X : has_stored_holes s0 = true) by (apply K5; congruence). congruence.
-    + repeat split; auto. intros i Hi. unfold uopt, RvModel.phys_read. now rewrite F1, F2, F3, F5.
-  - (* the three phases *)
-    destruct (write_data_ok s0 J1) as (s1 & Hwd & P1 & S1 & Rl1 & D1 & H1 & U1 & Hf1 & Hd1 & Pr1).
-    rewrite Hwd.
-    destruct (real_stored_len s0 <? stored_len s0) eqn:Ex; [lia|].
-    destruct (write_updates_ok s1) as (s2 & Hwu & U2 & Rl2 & D2 & S2 & P2 & H2 & Hf2 & Hd2 & Pr2).
-    { rewrite U1, F5. exact I3. }
-    { intros i Hi. rewrite U1, F5 in Hi. rewrite Rl1, L0. unfold rlen. specialize (I2 i Hi). lia. }
+    + repeat split; auto. intros i Hi _. unfold uopt, RvModel.phys_read. now rewrite F1, F2, F3, F5.
+  - (* the extension, then the three phases *)
+    destruct (write_extend_ok s0) as (se & Hwe & Je & De1 & De2 & Se & Pe & He & Ue & Hfe & Hde & Pre).
+    rewrite Hwe.
+    assert (Le : rlen se = rlen s0) by (unfold rlen; now rewrite Se, Pe).
+    destruct (write_data_ok se Je) as (s1 & Hwd & P1 & S1 & Rl1 & D1 & H1 & U1 & Hf1 & Hd1 & Pr1).
+    rewrite Hwd. rewrite Le in S1, Rl1. rewrite Le, Se, Pe in D1.
+    destruct (write_updates_ok (real_stored_len s0 <? stored_len s0) s1) as (s2 & Hwu & U2 & Rl2 & D2 & S2 & P2 & H2 & Hf2 & Hd2 & Pr2).
+    { rewrite U1, Ue, F5. exact I3. }
+    { intros i Hi. rewrite U1, Ue, F5 in Hi. rewrite Rl1, L0. unfold rlen. specialize (I2 i Hi). lia. }
     rewrite Hwu.
     assert (Hf20 : holef s2 = holef s0) by congruence.
     assert (Hhs : has_stored_holes s0 = has_stored_holes s2) by (unfold holef in Hf20; injection Hf20; auto).
@@ -420,18 +490,19 @@ Proof.
     assert (Hrl3 : real_stored_len s3 = rlen s) by (unfold real_stored_len in *; rewrite Rg3, Rl2, Rl1; exact L0).
     assert (Hhd : hdrf s3 = hdrf s0) by congruence. unfold hdrf in Hhd. injection Hhd as Hst3 Hm3 Hdk3.
     split.
-    { unfold RvRefine.Inv. rewrite Hrl3, S3, S2, S1, L0, U3, U2, Hl3, Hh3.
-      split; [lia|]. split; [intros i Hi; cbn in Hi; congruence|]. split; [constructor|].
+    { unfold RvRefine.Inv, Cov. rewrite Hrl3, S3, S2, S1, L0, U3, U2, Hl3, Hh3.
+      split; [intros i A1 A2; lia|]. split; [intros i Hi; cbn in Hi; congruence|]. split; [constructor|].
       split; [exact I4|]. split; [exact Hi3|]. intros _. congruence. }
     split.
     { unfold Normal. rewrite P3, P2, P1, U3, U2, S3, S2, S1, Hrl3, L0, Hr3, H3, Hm3, Hdk3, Hst3. repeat split; auto. }
     split; [exact Hl3|]. split; [exact Hh3|]. split; [congruence|]. split; [congruence|].
-    intros i Hi. assert (U0 : uopt tsize dec s0 i = uopt tsize dec s i) by (unfold uopt, RvModel.phys_read; now rewrite F1, F2, F3, F5).
+    intros i Hi Hb. apply B0 in Hb.
+    assert (U0 : uopt tsize dec s0 i = uopt tsize dec s i) by (unfold uopt, RvModel.phys_read; now rewrite F1, F2, F3, F5).
     rewrite <- U0. unfold uopt.
     rewrite S3, S2, S1, L0. destruct (rlen s <=? i) eqn:E1; [lia|]. rewrite U3, U2. cbn [nm_get].
     assert (Dg : get (disk s3) i = match nm_get i (updated s0) with Some v => Some v
-                 | None => if i <? stored_len s0 then get (disk s0) i else get (pushed s0) (i - stored_len s0) end).
-    { unfold disk in *. rewrite Rg3. rewrite D2, U1. destruct (nm_get i (updated s0)); auto. apply D1. lia. }
+                 | None => if i <? stored_len s0 then get (disk se) i else get (pushed s0) (i - stored_len s0) end).
+    { unfold disk in *. rewrite Rg3. rewrite D2, U1, Ue. destruct (nm_get i (updated s0)); auto. apply D1. lia. }
     destruct (stored_len s0 <=? i) eqn:E2.
     + assert (Hn : nm_get i (updated s0) = None).
       { destruct (nm_get i (updated s0)) eqn:Eg; auto. exfalso.
@@ -442,6 +513,8 @@ Proof.
     + destruct (nm_get i (updated s0)) eqn:Eg.
       * f_equal. apply phys_read_disk. exact Dg.
       * destruct (i <? stored_len s0) eqn:E3; [|lia].
+        assert (Hir : i < real_stored_len s0) by (destruct Hb as [Hb|[Hb|Hb]]; [exact Hb|lia|congruence]).
+        rewrite (De1 i Hir) in Dg.
         destruct (get_lt_some (disk s0) i) as [x Hx]; [unfold disk, real_stored_len, vr_len in *; lia|].
         rewrite Hx in Dg. f_equal. rewrite (phys_read_disk tsize dec s3 i x Dg).
         symmetry. apply phys_read_disk. exact Hx.
@@ -454,7 +527,11 @@ Theorem write_ok (s : rv) : Inv s ->
 Proof.
   intros HI. destruct (write_ok_u s HI) as (b & s' & Hw & HI' & HN & L & Hh & St & Pr & U).
   exists b, s'. repeat split; auto; try apply HI'; try apply HN.
-  intros i Hi. rewrite !view_at_uopt, Hh, U by exact Hi. reflexivity.
+  intros i Hi. rewrite !view_at_uopt, Hh. destruct (ns_mem i (holes s)) eqn:Em; [reflexivity|]. apply U; [exact Hi|].
+  unfold backed. destruct HI as (I1 & _).
+  destruct (N.lt_ge_cases i (real_stored_len s)) as [A|A]; [now left|]. right.
+  destruct (N.le_gt_cases (stored_len s) i) as [B|B]; [now left|]. right.
+  destruct (I1 i A B) as [C|C]; [exact C|congruence].
 Qed.
 End WRITE.
 
@@ -499,7 +576,7 @@ Proof.
   intros (I1 & I2 & I3 & I4 & I5 & I6) (R1 & R2 & R3). unfold rv_push.
   assert (L : rlen (set_pushed (pushed s ++ [v]) s) = rlen s + 1) by (unfold rlen; cbn; rewrite len_app; change (len [v]) with 1; lia).
   split.
-  - unfold RvRefine.Inv. rewrite L. cbn. unfold real_stored_len in *. cbn. repeat split; auto; try apply I5.
+  - unfold RvRefine.Inv, Cov in *. rewrite L. cbn. unfold real_stored_len in *. cbn. inv_split; auto.
     intros i Hi. specialize (I4 i Hi). lia.
   - unfold RvRefine.R. rewrite L. unfold slen in *. cbn [contents set_contents sstamp]. rewrite len_app. change (len [Some v]) with 1.
     split; [exact R1|]. split; [lia|]. intros i Hi. rewrite view_at_eq. cbn [holes stored_len pushed updated set_pushed].
@@ -513,8 +590,20 @@ Proof.
       rewrite get_app_r by lia. replace (stored_len s + len (pushed s) - stored_len s - len (pushed s)) with 0 by lia. reflexivity.
 Qed.
 
+(* the invariant, with slot x possibly neither backed nor deleted (the state inside fill_first_hole_or_push
+   between pop_first and update_at) *)
+Definition InvBut (x : N) (s : rv) : Prop :=
+  (forall i, i <> x -> real_stored_len s <= i -> i < stored_len s -> nm_get i (updated s) <> None \/ ns_mem i (holes s) = true) /\
+  (forall i, nm_get i (updated s) <> None -> i < stored_len s) /\
+  NoDup (nm_keys (updated s)) /\
+  (forall i, ns_mem i (holes s) = true -> i < rlen s) /\
+  (has_stored_holes s = true <-> holes_region s <> None) /\
+  (hdr_modified s = false -> hdr_disk s = stamp s).
+Lemma Inv_InvBut x (s : rv) : Inv s -> InvBut x s.
+Proof. intros (I1 & I2 & I3 & I4 & I5 & I6). unfold InvBut. inv_split; auto. Qed.
+
 (* update_at on a live index: the view changes at that index only *)
-Lemma update_at_view (s : rv) i v : Inv s -> i < rlen s ->
+Lemma update_at_view_gen (s : rv) i v : InvBut i s -> i < rlen s ->
   exists s', rv_update_at i v s = (s', Ok tt) /\ Inv s' /\ rlen s' = rlen s /\ stamp s' = stamp s /\
              forall j, view_at s' j = if j =? i then Some v else view_at s j.
 Proof.
@@ -532,8 +621,11 @@ Proof.
     destruct Fs as (F1 & F2 & F3 & F4 & F5 & F6 & F7 & F8 & F9 & F10). clearbody s'.
     assert (L : rlen s' = rlen s) by (unfold rlen; rewrite F1, F2, Lp; reflexivity).
     split; [|split; [exact L|split; [exact F5|]]].
-    + unfold RvRefine.Inv. rewrite L. unfold real_stored_len. rewrite F1, F3, F4, F6, F7, F5, F8, F9, F10.
-      inv_split; auto. intros j Hj. rewrite holes_after_remove in Hj. apply andb_true_iff in Hj as [_ Hj]. auto.
+    + unfold RvRefine.Inv, Cov. rewrite L. unfold real_stored_len in *. rewrite F1, F3, F4, F6, F7, F5, F8, F9, F10.
+      inv_split; auto.
+      * intros j A1 A2. rewrite holes_after_remove. assert (Hne : j <> i) by lia.
+        destruct (I1 j Hne A1 A2) as [C|C]; [now left|right]. rewrite C. apply N.eqb_neq in Hne. now rewrite Hne.
+      * intros j Hj. rewrite holes_after_remove in Hj. apply andb_true_iff in Hj as [_ Hj]. auto.
     + intros j. rewrite !view_at_eq. unfold RvModel.phys_read. rewrite F1, F2, F3, F4, F10, holes_after_remove.
       destruct (j =? i) eqn:Ej; cbn [negb andb].
       * apply N.eqb_eq in Ej. subst j. rewrite E. unfold s0. cbn [pushed set_pushed].
@@ -554,8 +646,11 @@ Proof.
     destruct Fs as (F1 & F2 & F3 & F4 & F5 & F6 & F7 & F8 & F9 & F10). clearbody s1.
     assert (L : rlen (set_updated (nm_insert i v (updated s1)) s1) = rlen s) by (unfold rlen; cbn; now rewrite F1, F2).
     split; [|split; [exact L|split; [cbn; exact F5|]]].
-    + unfold RvRefine.Inv. rewrite L. unfold real_stored_len. cbn. rewrite F1, F3, F4, F6, F7, F5, F8, F9, F10.
+    + unfold RvRefine.Inv, Cov. rewrite L. unfold real_stored_len in *. cbn. rewrite F1, F3, F4, F6, F7, F5, F8, F9, F10.
       inv_split; auto.
+      * intros j A1 A2. rewrite holes_after_remove, nm_get_insert. destruct (j =? i) eqn:Ej; [left; discriminate|].
+        assert (Hne : j <> i) by (apply N.eqb_neq; exact Ej).
+        destruct (I1 j Hne A1 A2) as [C|C]; [now left|right]. now rewrite C.
       * intros j Hj. rewrite nm_get_insert in Hj. destruct (j =? i) eqn:Ej; [apply N.eqb_eq in Ej; lia|auto].
       * now apply NoDup_keys_insert.
       * intros j Hj. rewrite holes_after_remove in Hj. apply andb_true_iff in Hj as [_ Hj]. auto.
@@ -564,6 +659,11 @@ Proof.
       * apply N.eqb_eq in Ej. subst j. now rewrite E.
       * reflexivity.
 Qed.
+
+Lemma update_at_view (s : rv) i v : Inv s -> i < rlen s ->
+  exists s', rv_update_at i v s = (s', Ok tt) /\ Inv s' /\ rlen s' = rlen s /\ stamp s' = stamp s /\
+             forall j, view_at s' j = if j =? i then Some v else view_at s j.
+Proof. intros HI. apply update_at_view_gen. now apply Inv_InvBut. Qed.
 
 Lemma update_at_high (s : rv) i v : Inv s -> rlen s <= i -> rv_update_at i v s = (s, Err EIndexTooHigh).
 Proof.
@@ -597,8 +697,9 @@ Proof.
   destruct Fs as (F1 & F2 & F3 & F4 & F5 & F6 & F7 & F8 & F9 & F10). clearbody s1.
   assert (L : rlen (set_holes (ns_insert i (holes s1)) s1) = rlen s) by (unfold rlen; cbn; now rewrite F1, F2).
   split; [|split; [exact L|split; [cbn; exact F5|]]].
-  - unfold RvRefine.Inv. rewrite L. unfold real_stored_len. cbn. rewrite F1, F3, F4, F6, F7, F5, F8, F9, F10.
+  - unfold RvRefine.Inv, Cov in *. rewrite L. unfold real_stored_len in *. cbn. rewrite F1, F3, F4, F6, F7, F5, F8, F9, F10.
     inv_split; auto.
+    + intros j A1 A2. rewrite upd_after_remove, ns_mem_insert. destruct (j =? i) eqn:Ej; [now right|]. cbn [orb]. now apply I1.
     + intros j Hj. rewrite upd_after_remove in Hj. destruct (j =? i); [congruence|auto].
     + now apply NoDup_after_remove.
     + intros j Hj. rewrite ns_mem_insert in Hj. apply orb_true_iff in Hj as [Hj|Hj]; [apply N.eqb_eq in Hj; lia|auto].
@@ -627,8 +728,9 @@ Proof.
   unfold holef in Fhf. injection Fhf as Fh1 Fh2. unfold hdrf in Fhd. injection Fhd as Fd1 Fd2 Fd3.
   assert (L : rlen s' = N.min idx (rlen s)) by (unfold rlen at 1; rewrite Fs, Fp; exact Hsum).
   split.
-  - unfold RvRefine.Inv. rewrite L. unfold real_stored_len in *. rewrite Fr, Fh, Fu, Fs, Fh1, Fh2, Fd1, Fd2, Fd3.
+  - unfold RvRefine.Inv, Cov in *. rewrite L. unfold real_stored_len in *. rewrite Fr, Fh, Fu, Fs, Fh1, Fh2, Fd1, Fd2, Fd3.
     inv_split; auto; try lia.
+    + intros j A1 A2. rewrite nm_get_below, ns_mem_below. destruct (j <? idx) eqn:E; [|lia]. cbn [andb]. apply I1; lia.
     + intros j Hj. rewrite nm_get_below in Hj. destruct (j <? idx) eqn:E; [|congruence].
       specialize (I2 j Hj). destruct (N.lt_ge_cases j n1); auto.
       destruct (Hp j ltac:(lia)) as [Hc _]; [unfold rlen; lia|lia].
@@ -716,6 +818,7 @@ Notation view_at := (view_at tsize dec).
 Notation Inv := (@Inv T).
 Notation R := (@R T tsize dec).
 Notation step := (step tsize enc dec).
+Notation stamped_write := (stamped_write tsize dec).
 
 Lemma R_same_view (s s' : rv) a : R s a -> rlen s' = rlen s -> stamp s' = stamp s ->
   (forall i, i < rlen s -> view_at s' i = view_at s i) -> R s' a.
@@ -735,7 +838,7 @@ Qed.
 Lemma Inv_update_stamp (s : rv) st : Inv s -> Inv (update_stamp st s).
 Proof.
   intros (I1 & I2 & I3 & I4 & I5 & I6). unfold update_stamp. destruct (stamp s =? st); [repeat split; auto; apply I5|].
-  unfold RvRefine.Inv, rlen, real_stored_len in *. cbn. inv_split; auto. intros H. discriminate.
+  unfold RvRefine.Inv, Cov, rlen, real_stored_len in *. cbn. inv_split; auto. intros H. discriminate.
 Qed.
 Lemma update_stamp_fields (s : rv) st :
   rlen (update_stamp st s) = rlen s /\ stamp (update_stamp st s) = st /\ prevf (update_stamp st s) = prevf s /\
@@ -766,7 +869,7 @@ Proof.
   assert (Hm : forall j, ns_mem j (match holes_region s with Some l => ns_of_list l | None => [] end) = ns_mem j (holes s)).
   { intros j. rewrite N6. destruct (holes s) eqn:Eh; [reflexivity|]. apply ns_mem_of_list. }
   unfold rv_reimport. split; [|split; [|split]].
-  - unfold RvRefine.Inv, rlen, real_stored_len. cbn. inv_split; auto; try lia.
+  - unfold RvRefine.Inv, Cov, rlen, real_stored_len. cbn. inv_split; auto; try lia.
     + intros i H. cbv [nm_get] in H. congruence.
     + constructor.
     + intros j Hj. rewrite Hm in Hj. specialize (I4 j Hj). unfold rlen in I4. rewrite N1, len_nil in *. unfold real_stored_len in N3. lia.
@@ -821,7 +924,7 @@ Proof.
     split; [exact HI'|]. split; [eapply R_same_view; eauto|]. eauto.
   - (* Reset *) destruct (reset_fields s I6) as (F1 & F2 & F3 & F4 & F5 & F6a & F6b & F7 & F8). cbn [fst snd res_rel].
     split; [|split; [|reflexivity]].
-    + unfold RvRefine.Inv, rlen, real_stored_len in *. rewrite F1, F2, F3, F4, F5, F6a, F6b, F7. inv_split; auto; try lia.
+    + unfold RvRefine.Inv, Cov, rlen, real_stored_len in *. rewrite F1, F2, F3, F4, F5, F6a, F6b, F7. inv_split; auto; try lia.
       * intros i H. cbv [nm_get] in H. congruence.
       * constructor.
       * intros i H. cbv [ns_mem existsb] in H. discriminate.
@@ -858,11 +961,12 @@ Proof.
     destruct (ns_min (holes s)) as [h|] eqn:Em.
     + pose proof (ns_min_mem _ _ Em) as Hmm. pose proof (I4 _ Hmm) as Hh.
       set (s1 := set_holes (ns_remove h (holes s)) s).
-      assert (HI1 : Inv s1).
-      { unfold s1, RvRefine.Inv, rlen, real_stored_len in *. cbn. inv_split; auto.
-        intros j Hj. rewrite ns_mem_remove in Hj. apply andb_true_iff in Hj as [_ Hj]. auto. }
+      assert (HI1 : InvBut h s1).
+      { unfold s1, InvBut, Cov, rlen, real_stored_len in *. cbn. inv_split; auto.
+        - intros j Hne A1 A2. rewrite ns_mem_remove. apply N.eqb_neq in Hne. rewrite Hne. cbn [negb andb]. now apply I1.
+        - intros j Hj. rewrite ns_mem_remove in Hj. apply andb_true_iff in Hj as [_ Hj]. auto. }
       assert (L1 : rlen s1 = rlen s) by reflexivity.
-      destruct (update_at_view tsize enc dec s1 h v HI1 ltac:(lia)) as (s2 & -> & HI2 & L2 & St2 & V2). cbn [fst snd res_rel].
+      destruct (update_at_view_gen tsize enc dec s1 h v HI1 ltac:(lia)) as (s2 & -> & HI2 & L2 & St2 & V2). cbn [fst snd res_rel].
       split; [exact HI2|]. split; [|reflexivity].
       eapply R_set; eauto; try congruence. intros j. rewrite V2. destruct (j =? h) eqn:Ej; [reflexivity|].
       rewrite !view_at_eq. unfold s1, RvModel.phys_read. cbn. rewrite ns_mem_remove, Ej. reflexivity.
